@@ -198,13 +198,14 @@ def drivers(kind):
         c0, c1 = RecClient("c0"), RecClient("c1")
         router.register_client(c0)
         router.register_client(c1)
-        names = ["A", "B"]
+        # names that contain each other: addressing is by equality, not by substring
+        names = ["A", "B", "AB"]
         reg = []
         for nm in names:
             if d.bool("reg-" + nm):
                 mk(nm)(router=router)
                 reg.append(nm)
-        name = d.choice(NAMES, "name")
+        name = d.choice(NAMES + ("AB", ""), "name")
         msg = make_message(kind, name) if "device" in [f[0] for f in MSG_SPECS[kind][0]] else make_message(kind, None)
         eff = getattr(msg, "device", None)
         router.process_message(msg, sender=c0)
@@ -240,7 +241,7 @@ def conditions(tier):
                              about=f"{k} symbolic API operations from the initial state, then {kind}", encodes=ENC,
                              bounds=f"{k} operations out of {len(OPS)}", timeout=900))
     for kind in ("GetProperties", "NewTextVector", "EnableBLOB"):
-        out.append(Condition(f"drivers/{kind}", make_condition(drivers(kind), 0, 2, 2),
+        out.append(Condition(f"drivers/{kind}", make_condition(drivers(kind), 0, 2, 3),
                              about=f"{kind} with real Driver instances as devices", encodes=ENC, timeout=300))
     return out
 
